@@ -218,6 +218,15 @@ def all_inputs(tier):
         out.append((tuple(map(str, label)), t, {}))
     for label, t, aux in import_answers():
         out.append((label, t, aux))
+    # byte-level: files that are not valid UTF-8 (e.g. saved as Latin-1), BOM, UTF-16
+    for n in names[:3]:
+        data = SEEDS[n].encode()
+        for k in range(0, len(data), 9 if tier == "quick" else 2):
+            for b in (0xE9, 0xFF, 0x80):
+                out.append(((n, "byte", str(k), hex(b)), data[:k] + bytes([b]) + data[k + 1:], {}))
+        out.append(((n, "byte", "bom"), b"\xef\xbb\xbf" + data, {}))
+        out.append(((n, "byte", "utf16"), SEEDS[n].encode("utf-16"), {}))
+        out.append(((n, "byte", "truncated-utf8"), data + b"// caf\xc3", {}))
     if tier == "thorough":
         # k = 2 edits on the two smallest seeds (every 3rd first edit x every 5th second edit)
         for n in ("empty", "semis"):
@@ -238,6 +247,8 @@ def inputs(tier):
 
 def features_of(text, label):
     f = []
+    if len(label) > 1 and label[1] == "byte":
+        f.append("not_utf8_file")
     if re.search(r"/\s*\(?\s*0(?![x0-9])", text) or re.search(r"/\s*0x0+\b", text):
         f.append("division_by_literal_zero")
     if re.search(r"[0-9]{4301,}", text):
@@ -273,6 +284,17 @@ def run_unit(unit):
                         with open(os.path.join(d, fn), "w") as f:
                             f.write(tx)
             path = os.path.join(d, "main.bitproto")
+            is_bytes = isinstance(text, bytes)
+            if is_bytes:
+                d = sc.sub("b%d" % k)
+                for fn, tx in AUX.items():
+                    with open(os.path.join(d, fn), "w") as f:
+                        f.write(tx)
+                path = os.path.join(d, "main.bitproto")
+                with open(path, "wb") as f:
+                    f.write(text)
+                raw = text
+                text = text.decode("latin-1")
             out.count("states")
             out.count("transitions")
             out.count("evaluations")
@@ -282,19 +304,23 @@ def run_unit(unit):
             t1 = time.time()
             try:
                 with watchdog(10), quiet_stderr():
-                    proto = parse_string(text, filepath=path)
+                    if is_bytes:
+                        from bitproto.parser import parse as parse_path
+                        proto = parse_path(path)
+                    else:
+                        proto = parse_string(text, filepath=path)
             except (ParserError, OSError) as e:
                 err = e
             except Timeout as e:
                 out.violation(check="parse", symptom="hang", site="parse", features=features_of(text, label), desc="input %r: no result within 10 s" % (label,),
-                              schema={"main.bitproto": text[:5000]}, replay=dict(kind="c09", text=text, aux=aux))
+                              schema={"main.bitproto": text[:5000]}, replay=dict(kind="c09", text=text, aux=aux, raw=(raw.hex() if is_bytes else None)))
                 continue
             except BaseException as e:  # noqa
                 out.count("nontrivial")
                 out.violation(check="parse", symptom=type(e).__name__, site=repo_site(e), features=features_of(text, label),
                               sig_features=features_of(text, label),
                               desc="input %r: parse escaped with %s: %s" % (label, type(e).__name__, str(e)[:200]), detail=exc_summary(e),
-                              schema={"main.bitproto": text[:5000]}, replay=dict(kind="c09", text=text, aux=aux))
+                              schema={"main.bitproto": text[:5000]}, replay=dict(kind="c09", text=text, aux=aux, raw=(raw.hex() if is_bytes else None)))
                 continue
             out.outcome(type(err).__name__ if err else "accepted", label[:2])
             if err is not None:
@@ -330,7 +356,7 @@ def run_unit(unit):
                         out.violation(check="render", symptom=type(e).__name__, site=repo_site(e), features=features_of(text, label) + ["lang:" + lang],
                                       sig_features=features_of(text, label),
                                       desc="input %r accepted, %s%s rendering escaped with %s: %s" % (label, lang, " -O" if kw else "", type(e).__name__, str(e)[:200]),
-                                      detail=exc_summary(e), schema={"main.bitproto": text[:5000]}, replay=dict(kind="c09", text=text, aux=aux))
+                                      detail=exc_summary(e), schema={"main.bitproto": text[:5000]}, replay=dict(kind="c09", text=text, aux=aux, raw=(raw.hex() if is_bytes else None)))
                         break
             if k % 997 == 0:
                 out.sample(dict(label=list(label)[:5], text=text[:200], outcome="accepted"))
@@ -350,7 +376,7 @@ def main(pid, tier):
     acc.merge(run_units(units(tier), run_unit, maxtasks=4))
     c = acc.counters
     g = []
-    for need in ("kind:delete", "kind:replace", "kind:insert", "kind:swap", "kind:truncate", "kind:delete_byte", "kind:fragment", "kind:import-invalid"):
+    for need in ("kind:delete", "kind:replace", "kind:insert", "kind:swap", "kind:truncate", "kind:delete_byte", "kind:fragment", "kind:import-invalid", "kind:byte"):
         if acc.classes.get(need, 0) < 1:
             g.append("no input of " + need)
     if c["accepted"] < 100 or c["rejected"] < 1000:
@@ -382,7 +408,13 @@ def replay(payload):
                     f.write(tx)
         try:
             with quiet_stderr():
-                p = parse_string(r["text"], filepath=os.path.join(sc.dir, "main.bitproto"))
+                if r.get("raw"):
+                    from bitproto.parser import parse as parse_path
+                    with open(os.path.join(sc.dir, "main.bitproto"), "wb") as f:
+                        f.write(bytes.fromhex(r["raw"]))
+                    p = parse_path(os.path.join(sc.dir, "main.bitproto"))
+                else:
+                    p = parse_string(r["text"], filepath=os.path.join(sc.dir, "main.bitproto"))
         except (ParserError, OSError) as e:
             print("NOT REPRODUCED (clean rejection: %s)" % type(e).__name__)
             return 0
